@@ -341,6 +341,49 @@ impl Check for C13 {
             }
             labels.push("broken".into());
         }
+        // bindings to several Go packages: the import block of the emitted Go must not depend on the process
+        if d.chance(80) {
+            const EXT: &[(&str, &str, &str)] = &[
+                ("strings", "ToUpper", "ext_upper"),
+                ("path", "Base", "ext_base"),
+                ("html", "EscapeString", "ext_html"),
+                ("strconv", "Quote", "ext_quote"),
+                ("os", "Getenv", "ext_env"),
+                ("net/url", "QueryEscape", "ext_query"),
+            ];
+            let k = 2 + d.below(3);
+            let start = d.below(EXT.len());
+            if let Some((_, main)) = files.iter_mut().find(|(p, _)| p == "main.gom") {
+                let mut decls = String::new();
+                let mut calls = String::new();
+                for j in 0..k {
+                    let (pkg, sym, name) = EXT[(start + j * 5) % EXT.len()];
+                    if decls.contains(name) {
+                        continue;
+                    }
+                    decls.push_str(&format!("extern \"go\" \"{pkg}\" \"{sym}\" {name}(s: string) -> string\n"));
+                    calls.push_str(&format!("    let _ = {name}(\"a\");\n"));
+                }
+                let lines: Vec<&str> = main.lines().collect();
+                if let Some(mi) = lines.iter().position(|l| l.starts_with("fn main(") && l.trim_end().ends_with('{')) {
+                    // declarations go right before `fn main`, the calls first thing in its body
+                    let mut out = String::new();
+                    for (i, l) in lines.iter().enumerate() {
+                        if i == mi {
+                            out.push_str(&decls);
+                            out.push('\n');
+                        }
+                        out.push_str(l);
+                        out.push('\n');
+                        if i == mi {
+                            out.push_str(&calls);
+                        }
+                    }
+                    *main = out;
+                    labels.push("extern-go>=2".into());
+                }
+            }
+        }
         // a random creation order of the files
         let mut perm: Vec<usize> = (0..files.len()).collect();
         for i in 0..perm.len() {
